@@ -215,6 +215,21 @@ Proof.
 Qed.
 Print Assumptions C15_uses_tree_spec.
 
+(* The resolution limit of the model, in terms of root_size.  A level-0 cell has width 2u and cannot be split; the root cell is at
+   level L, root_size = 2u * 2^L.  If every coordinate is a multiple of a grid spacing g with 2u < g, i.e.
+   g > root_size / 2^L, then a particle that lies in the cell and differs from every resident in at least one coordinate is
+   ACCEPTED by the insertion (never stopped by the resolution, never taken for a coincident particle).  The harness instantiates
+   L per case from the binary64 inputs (every coordinate a multiple of 2^12 units, u < 2^11): for binary64 the limit is reached
+   only when two coordinates differ by less than root_size / 2^L with L up to about 1074 + log2(root_size) (subnormals).  This
+   is the expectation against which the 'near' histories judge the library: distinct particles, however close, are accepted
+   and accounted for. *)
+Theorem C15_insert_accepts_distinct : forall u pos g, (2 * u < g)%Z -> forall l c node p,
+  owf u pos l c node -> inside u l c (pos p) -> ongrid g (pos p) ->
+  (forall q, In q (oleaves node) -> ongrid g (pos q) /\ pos q <> pos p) ->
+  exists t', add u pos l c node p = Some t'.
+Proof. exact add_no_exhaustion. Qed.
+Print Assumptions C15_insert_accepts_distinct.
+
 (* ===== round 4: the in-place update in general (particles leaving cells, re-insertion from the root DURING the walk) =====
    PATH model (C15/PathModel.v: cells = paths, particles carry their back pointer, leaves hold indices, the fix-up
    particles[oldpos].c->pt = oldpos is an explicit write; compared with reb_simulation_update_tree on pre/post dumps).
